@@ -136,16 +136,9 @@ def build_chain(case):
     return (atom + op) * n + atom
 
 
-def classify_flat_muldiv_recursion(bucket, case, detail, args):
-    return (
-        bucket.startswith("internal-error|RecursionError|")
-        and isinstance(detail, dict)
-        and detail.get("nesting", 99) <= 40
-        and detail.get("longest_flat_muldiv_run", 0) >= 300
-    )
-
-
-CLASSIFIERS = {"flat_muldiv_chain_recursion": classify_flat_muldiv_recursion}
+# (known finding F-C10-1 - RecursionError on flat product chains - was repaired in /repo fe7e3cd: no classifier is left, any
+# internal error on an input of bounded nesting is a violation)
+CLASSIFIERS = {}
 
 
 @st.composite
@@ -175,7 +168,7 @@ def string_strategy(ctx):
 def run(ctx):
     # dedicated flat chains (deterministic)
     for op in ["+", "-", "*", "/", "=", "", " + ", " * ", " - "]:
-        for n in (500, 1500, 3000):
+        for n in (500, 1500, 3000, 20000):
             if op == "":
                 s = "x" * (n + 1)
             else:
